@@ -419,8 +419,8 @@ def apply_dict_op(op, sut, ref, ki, kj, v, w, obits, ovals):
   return _check_dict_views(tag, sut, ref)
 
 
-_DICT_ARGS = ([(f'p{t}', 'bool') for t in range(5)] + [(f'x{t}', 'int') for t in range(5)] +
-              [('ki', 'int'), ('kj', 'int'), ('v', 'int'), ('w', 'int')] +
+_DICT_ARGS = ([(f'p{t}', 'bool') for t in range(5)] + [(f'x{t}', 'optint') for t in range(5)] +
+              [('ki', 'int'), ('kj', 'int'), ('v', 'optint'), ('w', 'int')] +
               [(f'q{t}', 'bool') for t in range(5)] + [(f'y{t}', 'int') for t in range(5)])
 
 
@@ -498,7 +498,7 @@ META = dict(
          'indices, slice triple, values, argument list, multiplier, key selector, presence bits.',
     bounds=['list contents: symbolic ints, length <= 3 (quick) / 4 (thorough); argument lists length <= 2/3',
             'indices in [-len-2, len+2]; slice start/stop likewise or None; step in [-3,3] minus 0, or None',
-            'multiplier in [-1,3]', 'dict keys from %r with symbolic presence bits (<= 3/5 present) and int values' % KEYS,
+            'multiplier in [-1,3]', 'dict keys from %r with symbolic presence bits (<= 3/5 present) and Optional[int] values' % KEYS,
             'slice lemma: start/stop/step unbounded Optional[int], len <= 4 (quick) / 6 (thorough)',
             'histories: depth 2 over core ops on length <= 2 (rotating sample in quick, all pairs in thorough)'],
     stubs=['CrossHair format() of symbolic non-str values returns "<sym>" (error-message text only)'],
